@@ -93,6 +93,9 @@ fn get_node_cover_range_impl(
     let node_range = node.range();
     (node_range.start <= range.start
         && node_range.end >= range.end
+        // A paragraph break is an `Expr`, but not something to lay out by itself:
+        // the blanks after its last line feed are the indentation of what follows.
+        && node.kind() != SyntaxKind::Parbreak
         && (node.is::<Markup>() || node.is::<Expr>() || node.is::<Pattern>()))
     .then(|| (node.span(), mode))
     // It returns span to avoid problems with borrowing.
